@@ -5,6 +5,21 @@ import json, os, subprocess
 ROOT = os.path.dirname(os.path.dirname(os.path.abspath(__file__)))
 
 CLAIMED = {
+ "C12": dict(
+   text="Theorems in Coq over a model of process trees (unbounded sequences of fork / exit / leave-the-group actions): C12_ptrace_teardown (for EVERY "
+        "tree a program can build while the policy refuses setsid/setpgid, killAll(-pgid) + collectZombie leaves no task alive and none "
+        "unreaped; by induction over the action list), C12_detached_survives_group_kill (the hypothesis is needed), C12_namespace_teardown (the "
+        "death of a pid-namespace init leaves no task alive whatever the tree did); on the RPC and batch models: "
+        "C12_nothing_in_flight_at_return (at every return of an environment call no reply is left and at most the one kill the container "
+        "consumes), C12_open_reply_descriptors_closed.  Tie on every run: histories of 20 (thorough 200) operations in one host process — "
+        "cancelled runs of 7-task trees ignoring all signals (own sessions in the pid-namespace runners) in all three runners, every Execve "
+        "failure class, Open batches, launches failing at clone and at exec, Build/Destroy, Build failing after the container started — with the "
+        "descriptors, goroutines and children of the host, the descriptors and children of the container init and every process carrying the "
+        "history's token counted before and after; a per-operation watchdog.",
+   note="Partial: the counts of the real system are measured, not proved; the kernel rules PR1, PR3, PR5, PT2 carry the process-tree theorems.  "
+        "One defect of the pinned tree (Build leaking the started container) was repaired by a fix: commit.",
+   technique="Coq proof by induction over program action lists (process-tree model) + residue measurement after real histories",
+   design="§5 C12"),
  "C16": dict(
    text="C16_socket_eof_ends_init: on the RPC LTS of C10, from EVERY reachable state (idle or any point of any operation, any interleaving), once "
         "the container has noticed that the socket is gone its own steps bring the init to its exit within 4 steps (verified ranking check): the "
